@@ -1,6 +1,7 @@
 package engines
 
 import (
+	"context"
 	"fmt"
 	"strings"
 
@@ -37,8 +38,117 @@ type c07Prior struct {
 	spec    *sim.WorldSpec
 }
 
+// c07Eval is the Eval arm: an Eval session keeps one VM for all its fragments. After fragments that ended in every
+// way a run can end, a further fragment must evaluate exactly as in a session that never saw them.
+var c07EvalPriors = []struct{ name, src string }{
+	{"ok", "pa := 1\n"},
+	{"throw", "throw \"boom\"\n"},
+	{"runtime-error", "[][3]\n"},
+	{"host-fault", "op(0)\n"},
+	{"throw-in-child", "call(func() { throw \"c\" })\n"},
+	{"host-fault-in-child", "call(func() { return op(0) })\n"},
+	{"zero-division", "pz := 0\n1 / pz\n"},
+	{"caught", "try { throw \"t\" } catch e { log(e) } finally { log(\"f\") }\n"},
+	{"aborted-loop", "for { }\n"},
+	{"aborted-loop-in-child", "call(func() { for { } })\n"},
+	{"does-not-compile", "zzq + 1\n"},
+}
+
+var c07EvalObserved = []string{
+	"ov := 7\n[ov, call(func(x) { return x + ov }, 1), callrep(func() { return 3 }, 2)]\n",
+	"var of2\nof := func(n) { if n == 0 { throw \"deep\" }; return of2(n - 1) }\nof2 = of\ntry { of(3) } catch e { log(e.Message) }\n[1, 2]\n",
+	"throw \"observed\"\n",
+	"om := import(\"modA\")\n[om.inc(), om.inc(), call(om.get)]\n",
+}
+
+func c07Eval(rc *sim.RunCtx) {
+	t := rc.T
+	allFaults := []sim.FaultKind{sim.FGoErr, sim.FUgoErr, sim.FPanicStr, sim.FPanicErr, sim.FPanicRT, sim.FPanicObj}
+	spec := &sim.WorldSpec{Name: "ev"}
+	for occ := 0; occ < 8; occ++ {
+		spec.Faults = append(spec.Faults, sim.FaultAt{ID: 0, Occ: occ, Kind: allFaults[t.Draw(len(allFaults))]})
+	}
+	for i := 0; i < 24; i++ {
+		spec.Pooled = append(spec.Pooled, t.Bool(1, 2))
+		spec.Repeat = append(spec.Repeat, 0)
+	}
+	mm := newModuleMap(fixedModules)
+	pool := &sim.SimPool{T: t}
+	restorePool := pool.Install()
+	defer restorePool()
+	prelude := sim.PreludeCall + "0\n"
+	eval := func(ev *ugo.Eval, src string, abortAt int64) (string, bool) {
+		sc := &sim.StepCounter{Cap: 100000, AbortAt: abortAt}
+		restore := sc.Install()
+		defer restore()
+		var ret ugo.Object
+		var err error
+		var esc any
+		func() {
+			defer func() { esc = recover() }()
+			ret, _, err = ev.Run(context.Background(), []byte(src))
+		}()
+		if esc != nil {
+			return "escaped-panic: " + msgClass(esc), sc.Capped
+		}
+		if err != nil {
+			if strings.Contains(err.Error(), "Compile Error") {
+				return "error=compile-error", sc.Capped
+			}
+			return "error=" + sim.CanonErr(err), sc.Capped
+		}
+		return "value=" + sim.Canon(ret), sc.Capped
+	}
+	// the used session
+	w := sim.NewWorld(spec, nil)
+	used := ugo.NewEval(ugo.CompilerOptions{ModuleMap: mm}, w.Globals)
+	if r, _ := eval(used, prelude, 0); r != "value=i:0" {
+		rc.Discard = "prelude-failed"
+		return
+	}
+	var kinds []string
+	for i, n := 0, 1+t.Draw(5); i < n; i++ {
+		p := c07EvalPriors[t.Draw(len(c07EvalPriors))]
+		at := int64(0)
+		if strings.HasPrefix(p.name, "aborted") {
+			at = int64(3 + t.Draw(60))
+		}
+		r, _ := eval(used, p.src, at)
+		kinds = append(kinds, p.name)
+		rc.Probe("eval-prior-" + p.name)
+		if strings.HasPrefix(r, "escaped") {
+			rc.Decoded = map[string]any{"fragment": p.src, "result": r}
+			rc.Fail("panic-escaped", "eval:escaped:"+p.name, "Eval.Run let a Go panic through while evaluating %q: %s", p.src, r)
+			return
+		}
+	}
+	hist := len(w.Hist)
+	obs := c07EvalObserved[t.Draw(len(c07EvalObserved))]
+	got, capped := eval(used, obs, 0)
+	gotHist := append([]string(nil), w.Hist[hist:]...)
+	// the reference session: prelude and observed fragment only; same world, host faults consumed up to the same point
+	w2 := sim.NewWorld(spec, nil)
+	fresh := ugo.NewEval(ugo.CompilerOptions{ModuleMap: mm}, w2.Globals)
+	eval(fresh, prelude, 0)
+	want, capped2 := eval(fresh, obs, 0)
+	if capped || capped2 {
+		rc.Discard = "workload-too-long"
+		return
+	}
+	rc.Sig = fmt.Sprintf("eval %v %x", kinds, hash64s(obs))
+	rc.Logf("eval arm priors=%v got=%s", kinds, got)
+	if got != want || strings.Join(gotHist, "|") != strings.Join(w2.Hist, "|") {
+		rc.Decoded = map[string]any{"earlier_fragments": kinds, "observed_fragment": obs, "used_session": got, "new_session": want}
+		rc.Fail("used-vm-differs", "used-session-differs:after-"+kinds[len(kinds)-1], "an Eval session that evaluated fragments ending in %v evaluates a further fragment differently from a new session\n used: %s hist=%v\n new:  %s hist=%v\nfragment:\n%s", kinds, got, gotHist, want, w2.Hist, obs)
+	}
+}
+
 func c07Run(rc *sim.RunCtx) {
 	t := rc.T
+	if t.Bool(1, 8) {
+		c07Eval(rc)
+		return
+	}
 	allFaults := []sim.FaultKind{sim.FGoErr, sim.FUgoErr, sim.FPanicStr, sim.FPanicErr, sim.FPanicRT, sim.FPanicObj}
 
 	// observation script
